@@ -689,7 +689,7 @@ fn run(case: &Case, out: &mut Out) {
                     out.viol("h2-lost", &format!("{} bytes out + {queued} queued != body {}", got.len(), body.len()));
                 }
             }
-            "h2convt" => {
+            "h2convt" | "h2convt2" => {
                 // h2convt <max> <seed> <nfields> W <w>.. C <n>.. : a chunked HTTP/1.1 response with a trailer section,
                 // parsed by kawa and written by the real H2BlockConverter (verif hook convert_h1_response)
                 let max = a[0].n() as usize;
@@ -720,11 +720,22 @@ fn run(case: &Case, out: &mut Out) {
                     resp.extend_from_slice(b"\r\n");
                 }
                 resp.extend_from_slice(b"0\r\n");
-                for (k, v) in &fields {
+                // h2convt2: the response comes in two reads, the first one ends inside the trailer section (after the
+                // last-chunk line and the first field when there are several): one converter pass happens in between
+                let mut cut = resp.len();
+                for (i, (k, v)) in fields.iter().enumerate() {
                     resp.extend_from_slice(format!("{k}: {v}\r\n").as_bytes());
+                    if i == 0 && fields.len() > 1 {
+                        cut = resp.len();
+                    }
                 }
                 resp.extend_from_slice(b"\r\n");
-                let (rounds, left) = match located(|| sozu_lib::protocol::mux::verif_c01::convert_h1_response(&ws, max, 5, &resp)) {
+                let split = op.name == "h2convt2";
+                let (rounds, left) = match located(|| if split {
+                    sozu_lib::protocol::mux::verif_c01::convert_h1_response_split(&ws, max, 5, &resp, cut)
+                } else {
+                    sozu_lib::protocol::mux::verif_c01::convert_h1_response(&ws, max, 5, &resp)
+                }) {
                     Ok(x) => x,
                     Err(e) => {
                         out.viol("h2t-parse", &format!("kawa did not parse the generated chunked response with {nf} trailer fields: {e}"));
